@@ -120,9 +120,10 @@ H("C12", "group", "c12_owned_operands", tq=1200, mem="medium", bounds="all subse
 H("C12", "group", "c12_as_bytes", tq=900, bounds="all subsets of universe 3")
 H("C12", "group", "c12_shim_differential_vs_vec", bounds="4 inserts at arbitrary positions + 1 push, shim vs Vec")
 H("C12", "group", "c12_twin_must_fail", expect="fail")
-H("C12", "hpoterm", "c12_ancestor_algebra_u2", mem="medium", tq=900, bounds="two terms, own ids any u32, ancestor sets = any subsets of an ascending symbolic universe of 2; probe id any u32")
-H("C12", "hpoterm", "c12_ancestor_algebra_u3", tier="thorough", mem="heavy", tt=3600, bounds="same, universe of 3")
-H("C12", "hpoterm", "c12_ancestor_algebra_u4", tier="thorough", mem="heavy", tt=3600, deep=True, bounds="same, universe of 4")
+for part in ("common", "union"):
+    H("C12", "hpoterm", "c12_ancestor_%s_u2" % part, mem="medium", tq=1200, bounds="two terms, own ids any u32, ancestor sets = any subsets of an ascending symbolic universe of 2; probe id any u32")
+    H("C12", "hpoterm", "c12_ancestor_%s_u3" % part, tier="thorough", mem="heavy", tt=3600, bounds="same, universe of 3")
+    H("C12", "hpoterm", "c12_ancestor_%s_u4" % part, tier="thorough", mem="heavy", tt=5400, deep=True, bounds="same, universe of 4")
 
 # ------------------------------------------------------------------------------------------------
 # C10
@@ -135,11 +136,11 @@ PROPERTIES["C10"] = dict(
             "(hash-map iteration + substring search)",
     assumptions=["inserted ids are below the id-table size (insert of an id >= table size panics on index: documented limit 10^7)"],
 )
-H("C10", "termarena", "c10_arena_get_any_key", mem="medium", tq=900, bounds="table 16 holding ids {0,3,9}; key = any u32", inputs="key u32")
+H("C10", "termarena", "c10_arena_get_any_key", mem="medium", tq=900, bounds="table 16 holding ids {0,3,9}; key = any u32 < 16 or >= 10^7 (in between the stub table differs from the real 10^7-entry table)", inputs="key u32")
 H("C10", "termarena", "c10_arena_insert_one_symbolic_id", mem="heavy", tq=1200, bounds="table 16 holding id 3; insert of a symbolic id < 16", inputs="i2 < 16, j < 16")
 H("C10", "termarena", "c10_arena_insert_symbolic_ids", tier="thorough", mem="heavy", tt=3600, bounds="table 16; two inserts with symbolic ids < 16", inputs="i1,i2 < 16, j < 16")
 H("C10", "termarena", "c10_arena_iteration", mem="medium", tq=900, bounds="3 concrete inserts; keys/values/iter/len")
-H("C10", "termarena", "c10_arena_empty_any_key", bounds="empty arena, any u32 key", inputs="key u32")
+H("C10", "termarena", "c10_arena_empty_any_key", bounds="empty arena, key any u32 < 16 or >= 10^7", inputs="key u32")
 H("C10", "termarena", "c10_arena_unchecked_agrees", mem="medium", tq=900, bounds="table 8 with 3 terms, symbolic choice of present id", inputs="sel < 3")
 H("C10", "termarena", "c10_id_space_constant")
 H("C10", "termarena", "c10_twin_must_fail", expect="fail")
@@ -184,6 +185,8 @@ H("C06", "statrs", "c06_support_bounds", bounds="N <= u32::MAX", inputs="N,K,n")
 H("C06", "statrs", "c06_ln_binomial_structure", replay="solver-only", bounds="n,k <= 255", inputs="n,k u64")
 H("C06", "statrs", "c06_ln_factorial_table_switch", replay="solver-only", bounds="x <= u32::MAX", inputs="x u64")
 H("C06", "statrs", "c06_factorial_table", bounds="171 concrete entries")
+H("C06", "hypergeom_disease", "c06_enrichment_record_wiring", tier="thorough", mem="heavy", tt=5400, deep=True, replay="solver-only",
+  bounds="inner_disease_enrichment on two directly built sample sets with one annotation; all k <= n <= N <= 6, k <= K <= N; libm modelled")
 H("C06", "statrs", "c06_twin_must_fail", expect="fail")
 
 # ------------------------------------------------------------------------------------------------
@@ -453,6 +456,6 @@ H("C13", "set", "c13_obsolete_2_3", tier="thorough", mem="heavy", tt=3600, args=
 H("C13", "set", "c13_replace_all3", mem="heavy", tq=1500, args=FS, bounds="members {1,2,3}; replacement presence and ids (any u32) symbolic")
 H("C13", "set", "c13_replace_1_3", tier="thorough", mem="heavy", tt=3600, args=FS, bounds="members {1,3}")
 H("C13", "set", "c13_modifier_all3", tier="thorough", mem="heavy", tt=5400, deep=True, args=FS, bounds="members {1,2,3}; 1 ancestor each and 1 modifier root, arbitrary u32 ids")
-H("C13", "set", "c13_modifier_1_2", tier="thorough", mem="heavy", tt=5400, args=FS, bounds="members {1,2}; 1 ancestor each, 1 root, arbitrary u32 ids; without_modifier only (8.5M SAT variables, ~20 min)")
+H("C13", "set", "c13_modifier_1_2", tier="thorough", mem="heavy", tt=5400, deep=True, args=FS, bounds="members {1,2}; 1 ancestor each, 1 root, arbitrary u32 ids; without_modifier only (8.5M SAT variables, ~20 min)")
 H("C13", "set", "c13_accessors", mem="medium", tq=900, args=FS, bounds="members {1,3}; probe id any u32")
 H("C13", "set", "c13_twin_must_fail", expect="fail", args=FS)
